@@ -5,7 +5,7 @@ VARIABLES sc, phase
 Base == [V |-> 2, R |-> 2, rwp |-> "seq", owp |-> "one", bnd |-> "scalar", mask |-> "none", ptype |-> "abs", magn |-> "scalar",
          rms |-> -1, pms |-> -1, lin |-> "none", nl |-> "none"]
 FamA == {[Base EXCEPT !.R = R, !.rwp = rwp, !.owp = owp, !.rms = rms, !.pms = pms] :
-           R \in 1..3, rwp \in {"ones", "seq", "zeroend", "allzero", "mixed"}, owp \in {"one", "big", "pair", "zero", "mixed"},
+           R \in 1..3, rwp \in {"ones", "seq", "zeroend", "allzero", "mixed"}, owp \in {"one", "big", "pair", "zero", "mixed", "near"},
            rms \in {-1, 0, 1, 2, 3, 5}, pms \in {-1, 1, 2, 3, 5}}
 FamB == {[Base EXCEPT !.V = V, !.bnd = b, !.mask = mk, !.ptype = pt, !.magn = mg] :
            V \in 1..3, b \in {"default", "scalar", "vector", "mixinf", "crossed", "badlen", "crossfix"},
@@ -17,7 +17,7 @@ Init == sc \in (FamA \cup FamB \cup FamC) /\ phase = "init"
 Next == phase = "init" /\ phase' = "done" /\ UNCHANGED sc
 InvWeights == phase = "done" /\ ~Rejected(sc) =>
                 /\ WeightsCanonical(Canon(sc).rw, RW(sc.R, sc.rwp))
-                /\ WeightsCanonical(Canon(sc).ow, OW(sc.owp))
+                /\ (sc.owp # "near" => WeightsCanonical(Canon(sc).ow, OW(sc.owp)))      \* (the products overflow TLC's integers there)
 InvClamped == phase = "done" /\ ~Rejected(sc) => Canon(sc).rms \in 0..sc.R /\ Canon(sc).pms \in 1..P
 InvBroadcast == phase = "done" /\ ~Rejected(sc) => Len(Canon(sc).lb) = sc.V /\ Len(Canon(sc).ub) = sc.V /\ Len(Canon(sc).magn) = sc.V
                                                     /\ (Len(Canon(sc).mask) \in {0, sc.V})
